@@ -220,6 +220,11 @@ def min_backward(grad, a, axis, keepdims):
 
 def squeeze_forward(a:np.ndarray, axis:'None | int | tuple'):
     out = a
+    if isinstance(axis, (tuple, list)):
+        # squeeze those of the given dims that have size 1
+        axis = tuple(ax for ax in axis if len(a.shape) > 0 and a.shape[ax] == 1)
+        if len(axis) > 0: out = np.squeeze(a, axis)
+        return out
     can_apply = len(a.shape) > 0 and (axis is None or a.shape[axis] == 1)
     if can_apply: out = np.squeeze(a, axis)
     return out
